@@ -177,12 +177,17 @@ class Spans:
         return s
 
     def __iadd__(self, other):
-        for (start, length) in other:
+        # snapshot the spans first: 'other' may be 'self' (a += a), and
+        # add() rewrites self._spans while we would be iterating over it
+        for (start, length) in list(other):
             self.add(start, length)
         return self
 
     def __isub__(self, other):
-        for (start, length) in other:
+        # snapshot the spans first: 'other' may be 'self' (a -= a), and
+        # remove() deletes from self._spans while we would be iterating
+        # over it, which skips every other span
+        for (start, length) in list(other):
             self.remove(start, length)
         return self
 
